@@ -21,6 +21,7 @@ from .resolver_map import ResolverMap
 from .scalars import SPECIFIED_SCALAR_TYPES
 from .types import (
     Directive,
+    EnumType,
     GraphQLAbstractType,
     GraphQLType,
     InputObjectType,
@@ -618,6 +619,10 @@ def _copy_type(type_: NamedType) -> NamedType:
         copied.fields = [_copy_with_arguments(f) for f in type_.fields]
     elif isinstance(copied, InputObjectType):
         copied.fields = [copy.copy(f) for f in type_.fields]
+    elif isinstance(copied, EnumType):
+        # Enum values belong to their type the same way: a visitor editing one
+        # in place must not reach the original.
+        copied._set_values([copy.copy(v) for v in type_.values])
     return copied
 
 
